@@ -11,3 +11,4 @@ uint32_t __cxa_atexit(P a, P b, P c) { (void)a; (void)b; (void)c; return 0; }
 void __CPROVER_assume(int c) { if(!c) { extern void v_assume_fail(const char *); v_assume_fail("assume"); } }
 void __CPROVER_assert(int c, const char *m) { extern void v_assert_fail(const char *); if(!c && !(m[0] == 'W' && m[1] == 'I' && m[2] == 'T')) v_assert_fail(m); }
 uint8_t __dso_handle;
+P ll_byte_alloc(uint64_t n) { return (P)calloc(1, n ? n : 1); }
